@@ -1,5 +1,5 @@
 SPECIFICATION Spec
-CONSTANTS NG = 3 Keys = {1} Rounds = 2 Modes = {"w", "r"} WRels = {"unlock", "deleteunlock"} RRels = {"runlock", "deleterunlock"} PlainDelete = FALSE Revalidate = TRUE SafeDelR = TRUE
+CONSTANTS NG = 2 Keys = {1} Rounds = 3 Modes = {"w", "r"} WRels = {"unlock", "deleteunlock"} RRels = {"runlock", "deleterunlock"} PlainDelete = FALSE Revalidate = TRUE SafeDelR = TRUE
 INVARIANTS Contract HoldsCurrent
 PROPERTY AllFinish
 CHECK_DEADLOCK FALSE
